@@ -1156,6 +1156,26 @@ func TranslateFn(w *World, fn *ssa.Function) *FnVC {
 			f.unsupported("%s", e)
 		}
 	}
+	// a positional clause whose program point no longer exists cannot be discharged
+	if f.c != nil && f.c.At != nil {
+		present := map[string]bool{}
+		for _, a := range f.anchors {
+			present[a] = true
+		}
+		var missing []string
+		for a := range f.c.At {
+			if !present[a] {
+				missing = append(missing, a)
+			}
+		}
+		sort.Strings(missing)
+		for _, a := range missing {
+			for k, cl := range f.c.At[a] {
+				o := f.oblige("lemma", fmt.Sprintf("at %s: %s  [the function has no such program point]", a, cl.Src), fn.Pos(), f.propsOf(cl), True, False)
+				o.Name = fmt.Sprintf("%s/at:%s/lemma%d", f.name, a, k)
+			}
+		}
+	}
 	// obligation names are identifiers (query files, known findings, evidence): two clauses
 	// carrying the same label get distinct names
 	seenName := map[string]int{}
